@@ -19,6 +19,10 @@ impl<'s> ValueCow<'s> {
     #[verifier::external_body]
     pub fn into_owned(self) -> (r: Value) ensures r.vid() == self.vid() { unimplemented!() }
 }
+impl<'s> From<Value> for ValueCow<'s> {
+    #[verifier::external_body]
+    fn from(v: Value) -> (r: ValueCow<'s>) ensures r == ValueCow::Owned(v) { unimplemented!() }
+}
 
 // ---- structure of a value as a function of its identity (assumed: what a view answers is determined by the value) ----
 pub uninterp spec fn vid_array(v: VId) -> Option<Seq<VId>>;
